@@ -3,6 +3,7 @@
 Copies a confirmed seeded change into /verif/seeded/<id>/ and writes meta.json."""
 import sys, os, shutil, json, subprocess
 src, mid, prop, needs, caught, hist = sys.argv[1:7]
+expected_exit = int(sys.argv[7]) if len(sys.argv) > 7 else 1
 dst = os.path.join('/verif/seeded', mid)
 if os.path.exists(dst): shutil.rmtree(dst)
 shutil.copytree(src, dst)
@@ -12,7 +13,7 @@ meta = {
  "confirmed": conf[0] if conf else "",
  "confirmation_cmd": "/verif/confirm_mutant.sh /verif/seeded/%s  (apply -> go build ./... -> go test ./... -> demo.sh must fail; clean tree -> demo.sh must pass)" % mid,
  "detection_cmd": "/verif/run_patch.sh /verif/seeded/%s/patch.diff %s" % (mid, prop),
- "caught_by": caught, "history": hist,
+ "caught_by": caught, "history": hist, "expected_quick_exit": expected_exit,
  "origin": "written by an independent sub-agent that saw only the property text and a scratch worktree",
 }
 json.dump(meta, open(os.path.join(dst, 'meta.json'), 'w'), indent=1)
